@@ -24,12 +24,26 @@ pub trait RecvFn<T> {
     fn call<X: TooDeeOpsMut<T> + CopyOps<T>>(&mut self, x: &mut X);
 }
 
-pub fn outer_of(win: Win, cols: usize, rows: usize) -> (Win, Win) {
+/// Outer window for nested receivers. mode 0: the window grown by one cell on every side (where the
+/// parent allows); 1: grown vertically only (the inner window spans the outer's full width while the
+/// outer is narrower than the parent); 2: grown horizontally only.
+pub fn outer_of_mode(win: Win, cols: usize, rows: usize, mode: usize) -> (Win, Win) {
     let (s, e) = win;
-    let os = (s.0.saturating_sub(1), s.1.saturating_sub(1));
-    let oe = ((e.0 + 1).min(cols), (e.1 + 1).min(rows));
+    let (gx, gy) = match mode % 3 {
+        0 => (1, 1),
+        1 => (0, 1),
+        _ => (1, 0),
+    };
+    let os = (s.0.saturating_sub(gx), s.1.saturating_sub(gy));
+    let oe = ((e.0 + gx).min(cols), (e.1 + gy).min(rows));
     let inner = ((s.0 - os.0, s.1 - os.1), (e.0 - os.0, e.1 - os.1));
     ((os, oe), inner)
+}
+
+/// The outer-window flavour is varied deterministically with the window position.
+pub fn outer_of(win: Win, cols: usize, rows: usize) -> (Win, Win) {
+    let (s, e) = win;
+    outer_of_mode(win, cols, rows, s.0 + 2 * s.1 + e.0 + e.1)
 }
 
 pub fn with_recv<T, F: RecvFn<T>>(recv: Recv, parent: &mut TooDee<T>, win: Win, f: &mut F) {
